@@ -5,7 +5,8 @@
      the startRes and runRes arms end in checkAllInstancesAreFinished();
    - checkAllInstancesAreFinished goes on only when isStartFinished() && awaitedInstances >= startedInstances and
      then calls runCancel() ([check_all]); no other function of the file calls runCancel();
-   - the aggregator and the provider run under the context runCancel cancels, the start context is its child. *)
+   - the aggregator and the provider run under the context runCancel cancels, the start context is its child; the end of
+     the shared RPS schedule cancels the instance start (the model's ESchedFin). *)
 From Coq Require Import List Bool.
 From PV Require Import Gen.AwaitRunGen Model.ShootEngine.
 Import ListNotations.
@@ -22,5 +23,6 @@ Lemma c10_engine_await_loop_is_model :
 Proof. repeat split; reflexivity. Qed.
 
 Lemma c10_engine_contexts_are_model :
-  gen_aggr_ctx_is_run = true /\ gen_prov_ctx_is_run = true /\ gen_start_ctx_child_of_run = true.
+  gen_aggr_ctx_is_run = true /\ gen_prov_ctx_is_run = true /\ gen_start_ctx_child_of_run = true /\
+  gen_sched_fin_cancels_start = true.
 Proof. repeat split; reflexivity. Qed.
